@@ -44,6 +44,9 @@ def run(R):
         check_drain(c, repo.func('pty_spawn:spawn.read_nonblocking'))
     with R.clause('D3', 'EXC', floor=5, desc='base read: EIO / empty read -> flag_eof + EOF, other OSError re-raised') as c:
         check_base_read(c, repo.func('spawnbase:SpawnBase.read_nonblocking'))
+    with R.clause('D8', 'FLOW', floor=2, desc='EOF is decided on the raw read result (an empty decode is not an empty read)') as c:
+        from .c07 import check_eof_test_raw
+        check_eof_test_raw(c, repo)
     with R.clause('D4', 'ONCE', floor=6, desc='pipe transport: every chunk queued, sentinel once and last, consumer appends every item') as c:
         check_pipe(c, repo)
     with R.clause('D5', 'PAIR', floor=3, desc='a socket\'s own timeout setting is left as it was found (restore in a finally)') as c:
@@ -346,6 +349,9 @@ def check_no_discard(c, f):
 
 
 MUTANTS = [
+    ('socket-timeout-cached', 'socket_pexpect', "        saved_timeout = self.socket.gettimeout()\n        try:\n            self.socket.settimeout(timeout)\n            yield\n        finally:\n            self.socket.settimeout(saved_timeout)", "        try:\n            self.socket.settimeout(timeout)\n            yield\n        finally:\n            self.socket.settimeout(self._saved)", 'D5'),
+    ('socket-eof-after-decode', 'socket_pexpect', "                s = self.socket.recv(size)\n                if s == b'':\n                    self.flag_eof = True\n                    raise EOF(\"Socket closed\")\n                s = self._decoder.decode(s, final=False)\n", "                s = self._decoder.decode(self.socket.recv(size), final=False)\n                if not s:\n                    self.flag_eof = True\n                    raise EOF(\"Socket closed\")\n", 'D8'),
+    ('base-eof-after-decode', 'spawnbase', "        if s == b'':\n            # BSD-style EOF\n            self.flag_eof = True\n            raise EOF('End Of File (EOF). Empty string style platform.')\n\n        s = self._decoder.decode(s, final=False)\n", "        s = self._decoder.decode(s, final=False)\n        if len(s) == 0:\n            self.flag_eof = True\n            raise EOF('End Of File (EOF). Empty string style platform.')\n", 'D8'),
     ('osread-size-plus', 'spawnbase', "s = os.read(self.child_fd, size)", "s = os.read(self.child_fd, size + 1)", 'D1'),
     ('loop-read-full-size', 'pty_spawn', "incoming += super(spawn, self).read_nonblocking(size - len(incoming))", "incoming += super(spawn, self).read_nonblocking(size)", 'D1'),
     ('loop-guard-or', 'pty_spawn', "            while len(incoming) < size and select(0):", "            while len(incoming) < size or select(0):", 'D1'),
